@@ -1,0 +1,146 @@
+//go:build verif
+
+// Contracts for the XDR / RPC codecs in rpc_types.go (C13), checked by /verif/govc (comment-only file).
+// Stream ghosts (wlen/wdata, rlen/rpos/rdata), be32/be64 and appendFrame are declared in /verif/specs/streams.spec.
+package absnfs
+
+//@ specdef roundup4(n mathint) mathint = ((n + 3) / 4) * 4
+// XDR string / opaque layout at byte offset p of array a: length word, bytes, zero padding
+//@ specdef strAt(a [1]int, p mathint, s string) bool = be32(a, p) == len(s) && forall(k, 0, len(s), a[p + 4 + k] == s[k], s[k])
+//@ specdef padZero(a [1]int, p mathint, n mathint) bool = forall(j, p + n, p + roundup4(n), a[j] == 0)
+
+//@ func xdrEncodeUint32
+//@ prop C13 C14
+//@ modifies wlen, wdata
+//@ ensures [frame] appendFrame(valof(w), old(wlen[valof(w)])) && wlen[valof(w)] >= old(wlen[valof(w)])
+//@ ensures [bytes] isnil(result) ==> wlen[valof(w)] == old(wlen[valof(w)]) + 4 && be32(wdata[valof(w)], old(wlen[valof(w)])) == v
+//@ ensures [buffer-never-fails] typeof(w) == typeid(*bytes.Buffer) ==> isnil(result)
+
+//@ func xdrEncodeUint64
+//@ prop C13 C14
+//@ modifies wlen, wdata
+//@ ensures [frame] appendFrame(valof(w), old(wlen[valof(w)])) && wlen[valof(w)] >= old(wlen[valof(w)])
+//@ ensures [bytes] isnil(result) ==> wlen[valof(w)] == old(wlen[valof(w)]) + 8 && be64(wdata[valof(w)], old(wlen[valof(w)])) == v
+//@ ensures [buffer-never-fails] typeof(w) == typeid(*bytes.Buffer) ==> isnil(result)
+
+//@ func xdrDecodeUint32
+//@ prop C13 C15
+//@ modifies rpos
+//@ ensures [frame] forall(o, mathint, o != valof(r) ==> rpos[o] == old(rpos[o])) && rpos[valof(r)] >= old(rpos[valof(r)])
+//@ ensures [ok-iff-4-bytes] isnil(result1) <==> rlen[valof(r)] - old(rpos[valof(r)]) >= 4
+//@ ensures [value] isnil(result1) ==> result0 == be32(rdata[valof(r)], old(rpos[valof(r)])) && rpos[valof(r)] == old(rpos[valof(r)]) + 4
+
+//@ func xdrEncodeString
+//@ prop C13 C14
+//@ modifies wlen, wdata, elems(byte)
+//@ requires len(s) <= 4294967295
+//@ ensures [frame] appendFrame(valof(w), old(wlen[valof(w)])) && wlen[valof(w)] >= old(wlen[valof(w)])
+//@ ensures [length] isnil(result) ==> wlen[valof(w)] == old(wlen[valof(w)]) + 4 + roundup4(len(s))
+//@ ensures [length-word] isnil(result) ==> be32(wdata[valof(w)], old(wlen[valof(w)])) == len(s)
+//@ ensures [bytes] isnil(result) ==> forall(j, old(wlen[valof(w)]) + 4, old(wlen[valof(w)]) + 4 + len(s), wdata[valof(w)][j] == s[j - (old(wlen[valof(w)]) + 4)])
+//@ ensures [padding] isnil(result) ==> padZero(wdata[valof(w)], old(wlen[valof(w)]) + 4, len(s))
+//@ ensures [buffer-never-fails] typeof(w) == typeid(*bytes.Buffer) ==> isnil(result)
+
+//@ func xdrEncodeFileHandle
+//@ prop C13 C14
+//@ modifies wlen, wdata
+//@ ensures [frame] appendFrame(valof(w), old(wlen[valof(w)])) && wlen[valof(w)] >= old(wlen[valof(w)])
+//@ ensures [len] isnil(result) ==> wlen[valof(w)] == old(wlen[valof(w)]) + 12
+//@ ensures [lenword] isnil(result) ==> be32(wdata[valof(w)], old(wlen[valof(w)])) == 8
+//@ ensures [handle] isnil(result) ==> be64(wdata[valof(w)], old(wlen[valof(w)]) + 4) == handle
+//@ ensures [buffer-never-fails] typeof(w) == typeid(*bytes.Buffer) ==> isnil(result)
+
+//@ func xdrDecodeFileHandle
+//@ prop C13 C15
+//@ allocbound 64
+//@ modifies rpos, elems(byte)
+//@ ensures [frame] forall(o, mathint, o != valof(r) ==> rpos[o] == old(rpos[o])) && rpos[valof(r)] >= old(rpos[valof(r)])
+//@ ensures [value] isnil(result1) ==> be32(rdata[valof(r)], old(rpos[valof(r)])) == 8 && result0 == be64(rdata[valof(r)], old(rpos[valof(r)]) + 4) && rpos[valof(r)] == old(rpos[valof(r)]) + 12
+//@ ensures [decodes-what-was-encoded] rlen[valof(r)] - old(rpos[valof(r)]) >= 12 && be32(rdata[valof(r)], old(rpos[valof(r)])) == 8 ==> isnil(result1)
+
+//@ func xdrDecodeString
+//@ prop C13 C07 C15
+//@ allocbound 8192
+//@ modifies rpos, elems(byte)
+//@ ensures [frame] forall(o, mathint, o != valof(r) ==> rpos[o] == old(rpos[o])) && rpos[valof(r)] >= old(rpos[valof(r)])
+//@ ensures [length-word] isnil(result1) ==> be32(rdata[valof(r)], old(rpos[valof(r)])) == len(result0)
+//@ ensures [bytes] isnil(result1) ==> forall(j, old(rpos[valof(r)]) + 4, old(rpos[valof(r)]) + 4 + len(result0), rdata[valof(r)][j] == result0[j - (old(rpos[valof(r)]) + 4)])
+//@ ensures [consumed] isnil(result1) ==> rpos[valof(r)] == old(rpos[valof(r)]) + 4 + roundup4(len(result0))
+//@ ensures [bounded-no-nul] isnil(result1) ==> len(result0) <= 8192 && forall(k, 0, len(result0), result0[k] != 0)
+//@ ensures [decodes-what-was-encoded] 0 <= be32(rdata[valof(r)], old(rpos[valof(r)])) && be32(rdata[valof(r)], old(rpos[valof(r)])) <= 8192 && rlen[valof(r)] - old(rpos[valof(r)]) >= 4 + roundup4(be32(rdata[valof(r)], old(rpos[valof(r)]))) && forall(k, 0, be32(rdata[valof(r)], old(rpos[valof(r)])), rdata[valof(r)][old(rpos[valof(r)]) + 4 + k] != 0) ==> isnil(result1)
+
+// decode(encode(v) ++ rest) == (v, rest): the encoder's postcondition and the decoder's postcondition
+// describe the same bytes with the same functions, so the round trip is a consequence of the contracts.
+//@ lemma roundtrip_uint32
+//@ prop C13
+//@ var a [1]int, p mathint, v uint32, got uint32
+//@ hyp be32(a, p) == v          // xdrEncodeUint32#bytes on the writer's bytes
+//@ hyp got == be32(a, p)        // xdrDecodeUint32#value on the same bytes
+//@ concl [identity] got == v
+
+//@ lemma roundtrip_filehandle
+//@ prop C13
+//@ var a [1]int, p mathint, h uint64, got uint64
+//@ hyp be32(a, p) == 8 && be64(a, p + 4) == h
+//@ hyp got == be64(a, p + 4)
+//@ concl [identity] got == h
+
+//@ lemma roundtrip_string
+//@ prop C13
+//@ var a [1]int, p mathint, s string, got string
+//@ hyp strAt(a, p, s) && strAt(a, p, got)
+//@ concl [same-length] len(got) == len(s)
+//@ concl [same-bytes] forall(k, 0, len(s), got[k] == s[k])
+//@ hyp p >= 0
+
+// ---- AUTH_SYS credential body parser (in-memory reader)
+
+//@ func byteReader.readUint32
+//@ prop C13 C10 C15
+//@ requires r != nil && 0 <= r.pos && r.pos <= 4611686018427387904
+//@ modifies r.pos
+//@ ensures [ok-iff-4-bytes] isnil(result1) <==> old(r.pos) + 4 <= len(r.data)
+//@ ensures [value] isnil(result1) ==> result0 == sbe32(r.data, old(r.pos)) && r.pos == old(r.pos) + 4
+//@ ensures [error-consumes-nothing] !isnil(result1) ==> r.pos == old(r.pos)
+
+//@ func byteReader.readString
+//@ prop C13 C10 C15
+//@ allocbound 8192
+//@ requires r != nil && 0 <= r.pos && r.pos <= 4611686018427387904
+//@ modifies r.pos
+//@ ensures [value] isnil(result1) ==> len(result0) == sbe32(r.data, old(r.pos)) && len(result0) <= 8192 && forall(k, 0, len(result0), result0[k] == r.data[old(r.pos) + 4 + k], result0[k])
+//@ ensures [consumed] isnil(result1) ==> r.pos == old(r.pos) + 4 + roundup4(len(result0)) && r.pos <= len(r.data)
+//@ ensures [pos-monotone] r.pos >= old(r.pos) && r.pos <= old(r.pos) + 8200
+
+//@ func ParseAuthSysCredential
+//@ prop C13 C10 C15
+//@ allocbound 16
+//@ modifies elems(uint32)
+//@ ensures [cred-or-error] isnil(result1) <==> result0 != nil
+//@ ensures [stamp] isnil(result1) ==> result0.Stamp == sbe32(body, 0)
+//@ ensures [machine] isnil(result1) ==> len(result0.MachineName) == sbe32(body, 4) && forall(k, 0, len(result0.MachineName), result0.MachineName[k] == body[8 + k], result0.MachineName[k])
+//@ ensures [ids] isnil(result1) ==> result0.UID == sbe32(body, 8 + roundup4(len(result0.MachineName))) && result0.GID == sbe32(body, 12 + roundup4(len(result0.MachineName)))
+//@ ensures [aux-count] isnil(result1) ==> len(result0.AuxGIDs) == sbe32(body, 16 + roundup4(len(result0.MachineName))) && len(result0.AuxGIDs) <= 16
+//@ ensures [aux] isnil(result1) ==> forall(j, 0, len(result0.AuxGIDs), result0.AuxGIDs[j] == sbe32(body, 20 + roundup4(len(result0.MachineName)) + 4 * j))
+//@ ensures [aux-fresh] isnil(result1) ==> fresh(result0.AuxGIDs) && fresh(result0)
+//@ ensures [body-untouched] forall(k, 0, len(body), body[k] == old(body[k]))
+//@ loop 1 invariant r != nil && cred != nil && r.data == body && fresh(cred) && fresh(r) && 0 <= i && i <= gidCount && gidCount <= 16
+//@ loop 1 invariant len(cred.AuxGIDs) == gidCount && fresh(cred.AuxGIDs) && off(cred.AuxGIDs) == 0 && r.pos == 20 + roundup4(len(cred.MachineName)) + 4 * i
+//@ loop 1 invariant cred.Stamp == sbe32(body, 0) && len(cred.MachineName) == sbe32(body, 4) && len(cred.MachineName) <= 8192 && cred.UID == sbe32(body, 8 + roundup4(len(cred.MachineName))) && cred.GID == sbe32(body, 12 + roundup4(len(cred.MachineName))) && gidCount == sbe32(body, 16 + roundup4(len(cred.MachineName)))
+//@ loop 1 invariant forall(k, 0, len(cred.MachineName), cred.MachineName[k] == body[8 + k], cred.MachineName[k])
+//@ loop 1 invariant forall(j, 0, i, cred.AuxGIDs[j] == sbe32(body, 20 + roundup4(len(cred.MachineName)) + 4 * j))
+//@ loop 1 invariant forall(k, 0, len(body), body[k] == old(body[k]))
+
+// ---- RPC call header decoder
+// layout of an RPC call at offset p: xid, msg_type(0), rpcvers, prog, vers, proc, cred(flavor,len,body,pad), verf(...)
+//@ func DecodeRPCCall
+//@ prop C13 C15
+//@ allocbound 400
+//@ modifies rpos, elems(byte)
+//@ ensures [call-or-error] isnil(result1) <==> result0 != nil
+//@ ensures [header] isnil(result1) ==> result0.Header.Xid == be32(rdata[valof(r)], old(rpos[valof(r)])) && result0.Header.MsgType == 0 && be32(rdata[valof(r)], old(rpos[valof(r)]) + 4) == 0 && result0.Header.RPCVersion == be32(rdata[valof(r)], old(rpos[valof(r)]) + 8) && result0.Header.Program == be32(rdata[valof(r)], old(rpos[valof(r)]) + 12) && result0.Header.Version == be32(rdata[valof(r)], old(rpos[valof(r)]) + 16) && result0.Header.Procedure == be32(rdata[valof(r)], old(rpos[valof(r)]) + 20)
+//@ ensures [cred] isnil(result1) ==> result0.Credential.Flavor == be32(rdata[valof(r)], old(rpos[valof(r)]) + 24) && len(result0.Credential.Body) == be32(rdata[valof(r)], old(rpos[valof(r)]) + 28) && len(result0.Credential.Body) <= 400
+//@ ensures [cred-body] isnil(result1) ==> forall(k, 0, len(result0.Credential.Body), result0.Credential.Body[k] == rdata[valof(r)][old(rpos[valof(r)]) + 32 + k], result0.Credential.Body[k])
+//@ ensures [verf] isnil(result1) ==> result0.Verifier.Flavor == be32(rdata[valof(r)], old(rpos[valof(r)]) + 32 + roundup4(len(result0.Credential.Body))) && len(result0.Verifier.Body) == be32(rdata[valof(r)], old(rpos[valof(r)]) + 36 + roundup4(len(result0.Credential.Body))) && len(result0.Verifier.Body) <= 400
+//@ ensures [consumed] isnil(result1) ==> rpos[valof(r)] == old(rpos[valof(r)]) + 40 + roundup4(len(result0.Credential.Body)) + roundup4(len(result0.Verifier.Body))
+//@ ensures [frame] forall(o, mathint, o != valof(r) ==> rpos[o] == old(rpos[o])) && rpos[valof(r)] >= old(rpos[valof(r)])
